@@ -3,9 +3,10 @@
 PATCH="$1"; TIER="$2"; shift 2
 cd /repo || exit 9
 if [ -n "$(git status --porcelain --untracked-files=no)" ]; then echo "repo dirty"; exit 9; fi
-trap 'git -C /repo checkout -- . ; rm -rf /verif/replays.seedtest; ' EXIT
+trap 'git -C /repo checkout -- . ; rm -rf /verif/run/seed-replays; ' EXIT
 git apply "$PATCH" || { echo "patch does not apply"; exit 8; }
 for id in "$@"; do
-  VERIF_NO_EVIDENCE=1 /verif/check "$id" "$TIER" 2>&1 | grep -E "^(VIOLATION|KNOWN|MACHINERY|C[0-9][0-9] )|violation class" | head -12
-  echo "== $id exit=${PIPESTATUS[0]}"
+  VERIF_NO_EVIDENCE=1 VERIF_REPLAY_DIR=/verif/run/seed-replays /verif/check "$id" "$TIER" >/verif/run/seedtest.out 2>&1; rc=$?
+  grep -E "^(KNOWN|MACHINERY|C[0-9][0-9] )|violation class" /verif/run/seedtest.out | cut -c1-200 | head -12
+  echo "== $id exit=$rc"
 done
